@@ -199,6 +199,10 @@ def cases(tier):
             yield ('incl', av, bv)
     for i in range(len(CLI_ERRORS)):
         yield ('cli-error', i)
+    for layout in range(len(CHAIN_LAYOUTS)):
+        for kind in range(len(CHAIN_ERRORS)):
+            for how in ('relative', 'absolute'):
+                yield ('cli-chain', layout, kind, how)
 
 
 def run(case) -> Result:
@@ -218,6 +222,8 @@ def run(case) -> Result:
         _incl_one(res, case[1], case[2], tuple(case[3]))
     elif k == 'cli-error':
         _cli_error(res, case)
+    elif k == 'cli-chain':
+        _cli_chain(res, case)
     return res
 
 
@@ -527,5 +533,62 @@ def _cli_error(res, case):
             break
         pos = i + len(nd)
     res.outcomes[('cli-error', o.ident)] += 1
+    if errs:
+        res.violation(case, errs)
+
+
+# chains of including files across directories: (path of the case, path of b relative to the case's dir, path of c relative to b's dir)
+CHAIN_LAYOUTS = [('a.case', 'b.xly', 'c.xly'), ('cases/a.case', 'b.xly', 'c.xly'), ('cases/a.case', 'inc/b.xly', 'more/c.xly'), ('a.case', 'inc/b.xly', 'more/c.xly'),
+                 ('cases/a.case', '../b.xly', 'sub/c.xly'), ('x/y/a.case', 'inc/b.xly', '../c.xly'), ('cases/a.case', 'inc/b.xly', 'more/c.xly', 'deep/er/d.xly')]
+CHAIN_ERRORS = [('no-such-instruction x', 'SYNTAX_ERROR', 65), ('including missing-file.xly', 'FILE_ACCESS_ERROR', 65), ('run % p @[UNDEFINED]@', 'VALIDATION_ERROR', 65),
+                ('stub-less-hard-error', 'HARD_ERROR', 128)]
+
+
+def _cli_chain(res, case):
+    """The error report lists, in order, every including file with its real path (relative to the current directory when the case is
+    given by a relative path) and directive line, ending with the file and line of the failing instruction."""
+    import os
+    import posixpath
+    _, li, ki, how = case
+    layout = CHAIN_LAYOUTS[li]
+    errline, ident, rc = CHAIN_ERRORS[ki]
+    if errline == 'stub-less-hard-error':
+        errline = 'file -rel-act existing-dir-clash/x\nfile -rel-act existing-dir-clash/x'
+    w = world.get()
+    w.reset()
+    procseam.SEAM.reset()
+    procseam.SEAM.default = {'exit': 0}
+    paths = [layout[0]]
+    for rel in layout[1:]:
+        paths.append(posixpath.normpath(posixpath.join(posixpath.dirname(paths[-1]), rel)))
+    for i, p in enumerate(paths):
+        if i + 1 < len(paths):
+            pre = '[setup]\n' if i == 0 else ''
+            w.write(p, pre + '# comment\n' * i + "def string S%d = 'v'\n" % i + 'including %s\n' % layout[i + 1])
+        else:
+            w.write(p, '\n' * i + errline + '\n')
+    os.chdir(str(w.home))
+    arg = paths[0] if how == 'relative' else str(w.home / paths[0])
+    o = cli.run([arg])
+    res.n += 1
+    res.nontrivial += 1
+    errs = []
+    if o.ident != ident or o.rc != rc:
+        errs.append('outcome %s (rc %s), expected %s' % (o.ident, o.rc, ident))
+    prefix = '' if how == 'relative' else str(w.home) + '/'
+    pos = 0
+    for i, p in enumerate(paths):
+        if i + 1 < len(paths):
+            line = (2 if i == 0 else 0) + i + 2 - (1 if i else 0)
+            line = (1 if i == 0 else 0) + i + 2
+            needle = '%s%s, line %d' % (prefix, p, line)
+        else:
+            needle = '%s%s, line ' % (prefix, p)
+        j = o.err.find(needle, pos)
+        if j < 0:
+            errs.append('the report does not name %r (in order, after position %d): %r' % (needle, pos, o.err[:900]))
+            break
+        pos = j + len(needle)
+    res.outcomes[('cli-chain', o.ident)] += 1
     if errs:
         res.violation(case, errs)
